@@ -4,7 +4,7 @@ from __future__ import annotations
 import ast
 from typing import Dict, List, Optional, Set, Tuple
 
-from ..core import AnalysisError, ClassInfo, FuncInfo, Index, call_name, dotted, is_self_attr, norm, walk_local
+from ..core import AnalysisError, ClassInfo, FuncInfo, Index, call_name, calls_in, dotted, is_self_attr, norm, walk_local
 
 CHANGE_BASE = "rope.base.change.Change"
 
@@ -212,3 +212,48 @@ def hard_keyword_rule(ctx, res, rule: str) -> None:
                          "`match(p).group` is cut to `(p).group`, go-to-definition and completion on such names answer nothing or raise",
                          function=f.qualname)
     res.floor(rule, "keyword-oracle references in the word finder", hard + soft, 1)
+
+
+# functions whose startswith tests compare HIERARCHICAL names (dotted module names, '/'-separated project paths):
+# confirmed by reading; one line of reason each.  The prefix must end in the separator, otherwise `pk.utils` counts as
+# inside `pk.util` and `/proj2/x.py` as inside `/proj`.
+HIERARCHICAL_PREFIX_SITES = {
+    "rope.refactor.importutils.actions.AddingVisitor.visitNormalImport": "`import a.b` covers / is covered by `import a`: dotted module names",
+    "rope.base.resources.Folder.contains": "is the resource inside this folder: project-relative paths",
+    "rope.base.libutils.relative": "is the path inside the project root: real paths",
+    "rope.base.pycore.PyCore._builtin_submodules": "submodules of a builtin package: dotted module names",
+}
+
+
+def prefix_boundary_rule(ctx, res, rule: str, sites: List[str]) -> None:
+    """every `x.startswith(<non-constant>)` in the listed functions has an argument that ends in a separator constant"""
+    idx = ctx.idx
+    SEPS = {".", "/", "\\"}
+
+    def ends_in_sep(e: ast.AST) -> bool:
+        if isinstance(e, ast.BinOp) and isinstance(e.op, ast.Add):
+            r = e.right
+            return (isinstance(r, ast.Constant) and isinstance(r.value, str) and r.value[-1:] in SEPS) or \
+                (isinstance(r, ast.Attribute) and r.attr in ("sep", "path.sep")) or ends_in_sep(r)
+        if isinstance(e, ast.JoinedStr) and e.values:
+            last = e.values[-1]
+            return isinstance(last, ast.Constant) and isinstance(last.value, str) and last.value[-1:] in SEPS
+        return False
+
+    n = 0
+    for fq in sites:
+        f = idx.need_func(fq)
+        k = 0
+        for c in calls_in(f.node):
+            if isinstance(c.func, ast.Attribute) and c.func.attr == "startswith" and c.args and not isinstance(c.args[0], ast.Constant):
+                n += 1
+                k += 1
+                ok = ends_in_sep(c.args[0])
+                res.add(rule, f"{fq.split('.', 2)[-1]}|prefix#{k}", ok, f"{f.unit.rel}:{c.lineno}",
+                        "the hierarchical prefix test ends in the separator" if ok else
+                        f"{f.name} tests a hierarchical name with `{ast.unparse(c)}`: without the trailing separator a sibling whose name merely begins "
+                        "with the same characters counts as contained (`import pk.utils` is taken to provide `pk.util`; `/proj2/x.py` to lie inside `/proj`)",
+                        function=f.qualname, reason=HIERARCHICAL_PREFIX_SITES.get(fq, ""))
+        if k == 0:
+            raise AnalysisError(f"anchor={fq}: no startswith test on a computed prefix (the table in sa/rules/common.py is stale)")
+    res.floor(rule, "hierarchical prefix tests", n, len(sites))
